@@ -298,7 +298,8 @@ def register_components(reg):
             "forall([STR, STR, INT, INT], lambda a, b, s, ov: implies(a in self.nodes and (b, s, ov) in self.nodes[a].end, R(a, b)))",
         ],
         loops={
-            1: Loop(fingerprint="while len(queue) > 0", invariant={
+            1: Loop(fingerprint="while len(queue) > 0", decreases=["card(self.nodes) - card(cc)", "len(queue)"], assume_head=["card_mono(cc, self.nodes)"],
+                    invariant={
                 "graph-unchanged": GRAPH_FRAME,
                 "members": "forall(STR, lambda x: implies(x in cc, x in self.nodes and V(x) and not V0(x) and R(start_node, x)))",
                 "queue-entries": "forall(lambda i: implies(0 <= i < len(queue), queue[i] in self.nodes and not V0(queue[i]) and R(start_node, queue[i])))",
@@ -408,7 +409,11 @@ def register_dfs(reg):
             "its-links-are-self-links": "forall([STR, INT, INT], lambda b, s, ov: implies((b, s, ov) in self.nodes[start_node].start or (b, s, ov) in self.nodes[start_node].end, b == start_node))",
             "the-listed-key-is-the-start-node": "ks0[0] == start_node and len(ks0) == 1"}},
         loops={
-            1: Loop(fingerprint="while stack", invariant=dict(DFS_INV, **{
+            # termination: lexicographic measure (nodes not yet output, stack length); the first component needs "a set of nodes has at most as many
+            # elements as there are nodes" (card_mono: an instance of a theorem about finite sets, assumed and listed)
+            1: Loop(fingerprint="while stack", decreases=["card(self.nodes) - card(dfs_out)", "len(stack)"],
+                    assume_head=["card_mono(dfs_out, self.nodes)"],
+                    invariant=dict(DFS_INV, **{
                 "closed-or-stacked": "forall([STR, STR], lambda x, y: implies(x in dfs_out and adj(self, x, y), y in dfs_out or stacked(y)))"})),
             2: Loop(index="it2", seq_name="nbrs", fingerprint="for neighbour in self[s].neighbors()",
                     pres_from={"neighbours-are-adjacent": ["loop2:neighbours-are-adjacent"], "every-adjacent-node-is-listed": ["loop2:every-adjacent-node-is-listed"]},
